@@ -844,6 +844,8 @@ def sym_max(*args, **kw):
                     r = smax(r, v)
                 return r
         return builtins.max(*args, **kw)
+    if any(isinstance(v, (_AbsQ, _AbsTol)) for v in args):
+        return _AbsTol()
     if not any(is_sym(v) for v in args):
         return builtins.max(*args)
     r = args[0]
@@ -1355,8 +1357,13 @@ def _obj(a):
 
 
 def _elementwise(fn, *ins):
-    arrs = np.broadcast_arrays(*[_obj(a) for a in ins])
-    out = np.empty(arrs[0].shape, dtype=object)
+    srcs = [_obj(a) for a in ins]
+    arrs = np.broadcast_arrays(*srcs)
+    # numpy's elementwise kernels allocate their output in the memory order of the inputs ('K'): Fortran order when every
+    # operand with the full shape is Fortran- and not C-contiguous
+    full = [a for a in srcs if isinstance(a, np.ndarray) and a.ndim >= 2 and a.shape == arrs[0].shape]
+    forder = bool(full) and builtins.all(a.flags.f_contiguous and not a.flags.c_contiguous for a in full)
+    out = np.empty(arrs[0].shape, dtype=object, order='F' if forder else 'C')
     if out.ndim == 0:
         out[()] = fn(*[a[()] for a in arrs])
         return out
@@ -1788,6 +1795,28 @@ def _put(a, ind, v, mode='raise'):
     if base.dtype != object and has_sym(v):
         raise Unsupported('np.put of symbolic values into a %s buffer' % base.dtype)
     np.put(base, ind, v, mode=mode)
+
+
+@implements(np.putmask)
+def _putmask(a, mask, values):
+    """numpy semantics: a.flat[i] = values.flat[i % values.size] where mask.flat[i] -- the values are NOT broadcast, they are
+    repeated cyclically over the flattened target; a symbolic mask is merged element by element (no fork)"""
+    base = np.asarray(a)
+    m = np.broadcast_to(np.asarray(mask, dtype=object), base.shape)
+    vals = np.asarray(values, dtype=object).ravel() if not is_sym(values) else np.array([values], dtype=object)
+    if base.dtype != object:
+        if has_sym(m) or has_sym(vals):
+            raise Unsupported('np.putmask of symbolic values / mask into a %s buffer' % base.dtype)
+        np.putmask(base, np.asarray(mask), np.asarray(values))
+        return
+    nv = len(vals)
+    for i, idx in enumerate(np.ndindex(base.shape)):
+        mk = m[idx]
+        v = vals[i % nv]
+        if isinstance(mk, SymBool):
+            base[idx] = ite(mk, v, base[idx])
+        elif bool(mk):
+            base[idx] = v
 
 
 @implements(np.isclose)
@@ -2638,6 +2667,31 @@ class SymQ:
         return 'SymQ(%s / %s)' % (str(self.n)[:40], str(self.d)[:40])
 
 
+class _AbsTol:
+    """an opaque non-constant tolerance built from absolute values of table entries (c * |q|, max(|q1|, |q2|), ...): comparing
+    a table difference with it is NOT the documented absolute 1e-60 test; the harness records an infinite threshold"""
+    __array_ufunc__ = None
+
+    def __mul__(self, o):
+        return self
+    __rmul__ = __mul__
+
+    def __float__(self):
+        raise Unsupported('data-dependent tolerance has no constant value')
+
+    def __gt__(self, o):
+        return True
+
+    def __ge__(self, o):
+        return True
+
+    def __lt__(self, o):
+        return False
+
+    def __le__(self, o):
+        return False
+
+
 class _AbsQ:
     """|q| that only supports the 'is it tiny' test of EpsAlg: the harness assumes the
     non-degenerate branch (no table difference vanishes) and records the assumption."""
@@ -2651,6 +2705,10 @@ class _AbsQ:
         a, b = self.q, o.q
         return _som((a.n * b.d) * (a.n * b.d) - (b.n * a.d) * (b.n * a.d))
 
+    def __mul__(self, o):
+        return _AbsTol()
+    __rmul__ = __mul__
+
     def _note(self, o):
         SymQ.ABS_SEEN.append(self.q)
         try:
@@ -2663,6 +2721,9 @@ class _AbsQ:
             return SymBool(self._sq_diff(o) <= 0)
         self._note(o)
         return False
+
+    def __array_function__(self, *a, **k):     # pragma: no cover
+        return NotImplemented
 
     def __lt__(self, o):
         if isinstance(o, _AbsQ):
